@@ -37,7 +37,7 @@ func (c16Noop) DialContext(context.Context, string, string) (netproxy.Conn, erro
 	return nil, errors.New("not implemented")
 }
 
-var c16Typs = []string{"t4", "t6", "T4", "T6", "d4", "d6", "u4", "u6", "x4", "x6"}
+var c16Typs = []string{"t4", "t6", "T4", "T6", "d4", "d6", "u4", "u6", "x4", "x6", "d4", "d6", "u4", "u6", "y4", "y6", "z4", "z6"}
 
 func c16NT(tok string) *dialer.NetworkType {
 	nt := &dialer.NetworkType{IpVersion: consts.IpVersionStr_4}
@@ -59,6 +59,12 @@ func c16NT(tok string) *dialer.NetworkType {
 		nt.UdpHealthDomain = dialer.UdpHealthDomainData
 	case 'x':
 		nt.L4Proto = consts.L4ProtoStr_UDP
+	case 'y':
+		nt.L4Proto = consts.L4ProtoStr_UDP
+		nt.IsDns = true
+	case 'z':
+		nt.L4Proto = consts.L4ProtoStr_UDP
+		nt.UdpHealthDomain = dialer.UdpHealthDomainDns
 	}
 	return nt
 }
@@ -77,15 +83,21 @@ func c16Tok(nt *dialer.NetworkType) string {
 	}
 	switch nt.UdpHealthDomain {
 	case dialer.UdpHealthDomainDns:
+		if !nt.IsDns {
+			return "z" + v
+		}
 		return "d" + v
 	case dialer.UdpHealthDomainData:
 		return "u" + v
 	}
+	if nt.IsDns {
+		return "y" + v
+	}
 	return "x" + v
 }
 
-func c16IsUdp(tok string) bool  { return tok[0] == 'd' || tok[0] == 'u' || tok[0] == 'x' }
-func c16IsData(tok string) bool { return tok[0] == 'u' || tok[0] == 'x' }
+func c16IsUdp(tok string) bool  { return strings.ContainsRune("duxyz", rune(tok[0])) }
+func c16IsData(tok string) bool { return strings.ContainsRune("uxy", rune(tok[0])) }
 func c16Idx(tok string) int {
 	b := 0
 	if tok[1] == '6' {
@@ -94,7 +106,7 @@ func c16Idx(tok string) int {
 	switch tok[0] {
 	case 't', 'T':
 		return 4 + b
-	case 'd':
+	case 'd', 'z':
 		return 2 + b
 	}
 	return 6 + b
